@@ -173,7 +173,7 @@ CHECKS = {
         note=NOTE_COMMON + ' The step from the loaded catalog to the diagnostics is covered by the per-check properties (C07, C14-C16, C18-C20), not composed here.'),
     'C10': dict(
         category='proof',
-        text='Proved in Coq for ALL inputs: polib_unescape returns exactly the byte string for every spelling of it in the C escape family (literal, \\n-style, octal, hex of the encoded '
+        text='Proved in Coq for ALL inputs: polib_unescape returns exactly the byte string for every spelling of it in the C escape family (literal, \\n-style, octal, hex escapes of any length with the value taken mod 256 as gettext does, of the encoded '
              'bytes) in every ASCII-compatible charset without warning, never crashes on any string and warns exactly on the D14 pattern; for every catalog and every spelling of the printer family '
              '(per-line padding, blank lines anywhere, continuation splitting, obsolete and previous-msgid prefixes) the loader model - detect_encoding, Codecs.open (LF-only splitting, comment '
              'normalisation), the line lexer and the 14-state PO state machine - yields exactly the catalog: strings, flags in order with duplicates, obsolete marker, previous-msgid, references '
@@ -182,7 +182,7 @@ CHECKS = {
              '42 ASCII-compatible charsets with an independent renderer, on single files and on multi-file sequences in one process.',
         design_ref='DESIGN.md 5 / C10; notes/C10.md',
         technique='Coq proof (unescape round trip and totality, lexer round trips per line kind and their assembly, state-machine round trip, Codecs.open / detect_encoding composition) + extracted-model correspondence with oracle-answer protocol + render/load oracle',
-        note=NOTE_COMMON + ' polib (third party) is modelled, not verified; bytes.decode is an oracle; separators after keywords are one choice per file in the proved family. Known findings D9, D14, D22, D23.'),
+        note=NOTE_COMMON + ' polib (third party) is modelled, not verified; bytes.decode is an oracle; separators after keywords are one choice per file in the proved family. Known findings D9, D14, D22, D23, D27; D29 repaired in /repo (5d2c73e): model, specification and theorems are those of the repaired code.'),
     'C12': dict(
         category='proof',
         text='Coq theorems relating two models, the scanner model of strformat.python.FormatString and a model of CPython 3.12 unicode_format_arg_parse/format: if the parser accepts '
